@@ -78,7 +78,7 @@ def checkForKeyword (fuel : Nat) (k : Keywords) (tok : Str) : Keywords × Str :=
   if isPrefix (str! "byte") p then ({ k with isByte := true }, clearAfterBlanks tok 4)
   else if isPrefix (str! "word") p then ({ k with isWord := true }, clearAfterBlanks tok 4)
   else if isPrefix (str! "dword") p then ({ k with isDword := true }, clearAfterBlanks tok 5)
-  else if isPrefix (str! "qword") p then (k, clearAfterBlanks tok 5)
+  else if isPrefix (str! "qword") p then ({ k with isQword := true }, clearAfterBlanks tok 5)
   else if isPrefix (str! "short") p then
     ({ k with isShort := true, isLong := false }, clearAfterBlanks tok 5)
   else if isPrefix (str! "long") p then
